@@ -133,9 +133,10 @@ FairSpec == Init /\ [][Next]_vars
 \* feat: the scenario's features; conformant: every view equals what the final stage wrote.
 \* Deviations on the text views only (the raw bytes and the exit code stay right):
 ObsDevEnabled(d, feat) ==
-  CASE d = "Dev_DecodePerRead" ->       \* text is decoded and CR/CRLF-normalised per read, not per stream: a multi-byte
-                                        \* character or a CRLF split by a read boundary is mangled / doubled
-         feat.payload \in {"utf8", "crlf"} /\ feat.size > 1024 /\ feat.view \in {"out", "iter"}
+  CASE d = "Dev_DecodePerRead" ->       \* text is decoded, CR/CRLF-normalised and stripped of escapes per read, not per
+                                        \* stream: a multi-byte character, a CRLF or an escape sequence split by a read
+                                        \* boundary is mangled / doubled / kept
+         feat.payload \in {"utf8", "crlf", "ansi"} /\ feat.size > 1024 /\ feat.view \in {"out", "iter"}
     [] d = "Dev_DollarKeepsEscapes" ->  \* $() does not strip terminal escape sequences (the other text views do)
          feat.payload = "ansi" /\ feat.view = "dollar"
     [] OTHER -> FALSE
